@@ -169,6 +169,21 @@ class Facts:
         f = self.fns_by_did.get(body.did)
         return f.get("trait_item") if f else None
 
+    def find_impl_method(self, trait_path, self_ty, method):
+        """did of `method` in the crate impl of trait_path for self_ty (matched on the type head,
+        generic parameter names ignored); None if there is none (e.g. self_ty is a type parameter)"""
+        def head(t):
+            return t.split("<", 1)[0].strip()
+        for im in self.impls:
+            if im.get("trait") != trait_path:
+                continue
+            a, b = im["self_ty"], self_ty
+            if a == b or (("::" in a) and head(a) == head(b)):
+                for it in im["items"]:
+                    if it["name"] == method and it.get("did") is not None:
+                        return it["did"]
+        return None
+
     # ---- test-only code ------------------------------------------------------------------
     def test_dids(self):
         """def indices of items under #[cfg(test)] / #[test] (only present in test builds)"""
